@@ -173,6 +173,7 @@ def finish(pm, pid, tier, seed, results, extra, contracts, wall):
     functions = []
     samples = []
     by_backend = {}
+    slow = []
     solver_s = 0.0
     for r in results:
         if r.get("error"):
@@ -193,6 +194,8 @@ def finish(pm, pid, tier, seed, results, extra, contracts, wall):
             if o["verdict"] == "proved":
                 f["proved"] += 1
                 by_backend[o["info"]] = by_backend.get(o["info"], 0) + 1
+                if o["info"] != "z3":
+                    slow.append({"obligation": o["oid"], "backend": o["info"], "secs": o["secs"], "path": o["log"][-5:]})
                 if "goal" in o and len(samples) < 6:
                     samples.append({"obligation": o["oid"], "kind": o["kind"], "path": o["log"][-4:],
                                     "goal_smt": o["goal"], "verdict": "proved by " + o["info"]})
@@ -290,6 +293,7 @@ def finish(pm, pid, tier, seed, results, extra, contracts, wall):
         "obligation_families": {k: {"obligations": v["n"], "discharged": v["proved"]} for k, v in sorted(fam.items())},
         "discharged_by_backend": by_backend,
         "solver_seconds": round(solver_s, 2),
+        "needed_fallback_backend": slow,
         "assumed_contracts": assumed,
         "out_of_subset": unsupported,
         "baseline_families": len(anchors), "baseline_families_missing": missing,
